@@ -2,7 +2,7 @@
    the specification, and the semantic reading of "implicit": an implicit conversion has no run-time
    precondition and preserves every value. *)
 From Coq Require Import ZArith List Bool Lia.
-From MdspanVerif Require Import MachInt ListAux Layouts LayoutSpec Extents ExtentsProofs Convert ConvertProofs Constraints.
+From MdspanVerif Require Import MachInt ListAux Layouts LayoutSpec LayoutProofs LayoutTheorems FlagProofs Extents ExtentsProofs Convert ConvertProofs Constraints.
 Import ListNotations.
 Local Open Scope Z_scope.
 
@@ -251,4 +251,48 @@ Proof.
   pose proof (valid_widen ts tt m Hm Hval) as Hvt. split; [|exact Hvt].
   destruct m as [es|es|es ss|es ps|es ps]; cbn [same_kind_target] in Hk; try discriminate; injection Hk as <-;
     apply (conv_correct ts _ (mkmt tt tpat _ None) _); auto; exact I.
+Qed.
+
+(* ---- every valid mapping over a non-empty index space is, with its own strides, a valid layout_stride mapping;
+        hence the conversion to layout_stride is total there ---- *)
+Lemma span1_le_imax t m : valid t m -> has_zero (exts m) = false -> span1 (dims m) <= imax t.
+Proof.
+  intros Hv Hz. pose proof (valid_exts_nonneg t m Hv) as Hnn.
+  pose proof (has_zero_inbe_exists _ Hnn Hz) as Hin0.
+  destruct m as [es|es|es ss|es ps|es ps]; unfold dims; cbn [exts spec_strides valid] in *.
+  - pose proof (prodl_span_left es Hnn) as E. rewrite Hz in E. rewrite <- E. destruct Hv as [_ Hb]. pose proof (prodl_le_prod1 es Hnn). lia.
+  - pose proof (prodl_span_right es Hnn) as E. rewrite Hz in E. rewrite <- E. destruct Hv as [_ Hb]. pose proof (prodl_le_prod1 es Hnn). lia.
+  - destruct Hv as (Hl & He & Hs & Hc & Hsp). rewrite (max1_id_pos es) in Hsp by (apply has_zero_false; auto). exact Hsp.
+  - destruct (span_padded_l t es ps (valid_pad_l t es ps Hv)) as (sp & _ & _ & _ & H). destruct (H Hz) as [Hle ->].
+    destruct (lpad_prodl_bound t es ps _ (valid_pad_l t es ps Hv) Hin0) as [_ Hb]. unfold dims in Hle. cbn [exts spec_strides] in Hle. lia.
+  - destruct (span_padded_r t es ps (valid_pad_r t es ps Hv)) as (sp & _ & _ & _ & H). destruct (H Hz) as [Hle ->].
+    destruct (rpad_prodl_bound t es ps _ (valid_pad_r t es ps Hv) Hin0) as [_ Hb]. unfold dims in Hle. cbn [exts spec_strides] in Hle. lia.
+Qed.
+
+Theorem valid_as_stride t m : valid t m -> has_zero (exts m) = false -> valid t (MStride (exts m) (spec_strides m)).
+Proof.
+  intros Hv Hz. pose proof (valid_exts_nonneg t m Hv) as Hnn.
+  pose proof (has_zero_inbe_exists _ Hnn Hz) as Hin0.
+  destruct (dims_chainable t m _ Hv Hin0) as (Hch & Hap & _ & Hlen).
+  pose proof (strides_nonneg_in t m Hv) as Hss. pose proof (valid_exts_in t m Hv) as Hes.
+  cbn [valid]. split; [exact Hlen|]. split; [exact Hes|]. split.
+  - (* strides are positive: every dimension of a non-empty space has a positive stride *)
+    unfold allpos, dims in Hap. unfold nonneg_in in Hss.
+    assert (G : forall es ss, length ss = length es -> Forall (fun d => 1 <= fst d /\ 0 < snd d) (combine es ss) ->
+                Forall (fun x => 0 <= x <= imax t) ss -> Forall (fun s => 0 < s <= imax t) ss).
+    { induction es as [|e es IH]; intros [|s ss] Hl Hc Hr; cbn [length combine] in *; try discriminate; [constructor|].
+      inversion Hc as [|? ? [_ Hs] Hc']; subst. inversion Hr as [|? ? Hs2 Hr']; subst. cbn [snd] in Hs. constructor; [lia|]. apply (IH ss); auto. }
+    apply (G (exts m) (spec_strides m) Hlen Hap Hss).
+  - split; [intros _; exact Hch|].
+    rewrite (max1_id_pos (exts m)) by (apply has_zero_false; auto). apply (span1_le_imax t m Hv Hz).
+Qed.
+
+Theorem to_stride_total ts tt tpat m : valid ts m -> has_zero (exts m) = false -> imax ts <= imax tt ->
+  conv_pre tt tpat (exts m) ->
+  conv_mapping ts m (mkmt tt tpat KStride None) = Ok (MStride (exts m) (spec_strides m)) /\
+  valid tt (MStride (exts m) (spec_strides m)).
+Proof.
+  intros Hv Hz Hm Hpre. pose proof (valid_widen ts tt _ Hm (valid_as_stride ts m Hv Hz)) as Hvt. split; [|exact Hvt].
+  apply (conv_correct ts m (mkmt tt tpat KStride None) (MStride (exts m) (spec_strides m))); auto; try reflexivity;
+    try (destruct m; reflexivity); try exact I.
 Qed.
